@@ -176,6 +176,49 @@ def policy_peer_audits(ctx):
                 ctx.violation('policy-peer/hostkey-not-measured/%s' % t, 'the audit of the peer synthesised from %r did not measure host key %r' % (name, t), desc)
         if r['rc'] == 3:
             ctx.violation('policy-peer-exit-failure', 'standard audit of the peer synthesised from %r exits 3' % name, desc)
+    # the same clause when the policy peer is not the only target of the run: audited right after a weak peer (small RSA host key, small
+    # group-exchange modulus, Terrapin-exposed ciphers) in one -T run, the peer configured per the policy still shows no failure
+    import os, tempfile
+    weak = dict(banner=b'SSH-2.0-OpenSSH_7.4', kex=['diffie-hellman-group-exchange-sha256', 'curve25519-sha256', 'diffie-hellman-group14-sha256'], key=['rsa-sha2-512', 'rsa-sha2-256', 'ssh-rsa', 'ssh-ed25519'],
+                enc=['chacha20-poly1305@openssh.com', 'aes256-gcm@openssh.com', 'aes128-gcm@openssh.com', 'aes256-ctr', 'aes192-ctr', 'aes128-ctr', 'aes128-cbc'],
+                mac=['hmac-sha2-256-etm@openssh.com', 'hmac-sha2-512-etm@openssh.com', 'umac-128-etm@openssh.com'],
+                hostkeys={b'rsa-sha2-512': P.rsa_blob(1024), b'rsa-sha2-256': P.rsa_blob(1024), b'ssh-rsa': P.rsa_blob(1024), b'ssh-ed25519': P.ed25519_blob()}, gex=lambda a, b, c: 1024 if a <= 1024 <= c else None)
+    mcases = [c for c in cases if not c[2]][:(2 if ctx.quick else 6)]
+
+    def do_multi(z, case):
+        name, pol = case[0], case[1]
+        hk = {}
+        for t, d in (pol['hostkey_sizes'] or {}).items():
+            if t in pol['host_keys']:
+                b = blob_for(t, d)
+                if b is not None: hk[t.encode()] = b
+        dh = pol['dh_modulus_sizes'] or {}
+        want = max(dh.values()) if dh else None
+        s1 = P.new_ssh2_server(dict(weak), stall_limit=3.0)
+        s2 = P.new_ssh2_server(dict(banner=b'SSH-2.0-OpenSSH_9.9', kex=list(pol['kex']), key=list(pol['host_keys']), enc=list(pol['ciphers']), mac=list(pol['macs']), hostkeys=hk,
+                                    gex=(lambda a, b, c: want if a <= want <= c else None) if want else None), stall_limit=3.0)
+        fd, tf = tempfile.mkstemp(prefix='verif_c17_')
+        try:
+            os.write(fd, ('127.0.0.1:%d\n127.0.0.1:%d\n' % (s1.port, s2.port)).encode()); os.close(fd)
+            r = z.run(['-j', '--skip-rate-test', '-t', '2', '--threads', '1', '-T', tf], timeout=180)
+            r['port2'] = s2.port
+            return r
+        finally:
+            s1.shutdown(); s2.shutdown(); os.unlink(tf)
+    with runner.Pool(4) as pool:
+        mouts = pool.map(do_multi, mcases)
+    for case, r in zip(mcases, mouts):
+        desc = {'op': 'policy-peer-audit-after-weak-target', 'policy': case[0]}
+        try:
+            el = [e for e in json.loads(r['out']) if e.get('target') == '127.0.0.1:%d' % r['port2']][0]
+        except (ValueError, IndexError, TypeError, AttributeError) as e:
+            ctx.violation('policy-peer/multi-no-report', '-T run over [weak peer, peer per %r]: exit %r, %s: %s' % (case[0], r['rc'], type(e).__name__, (r['out'] + r['err'])[-200:]), desc)
+            continue
+        for a in canon.json_algs(el):
+            fails = [t for (l, t) in a['notes'] if l == 'fail']
+            if fails:
+                ctx.violation('policy-peer-shows-failure-after-weak-target/%s/%s' % (a['cat'], a['name']), 'audited after a weak peer in one run, the peer configured exactly per %r shows a failure: %s %r: %r' % (case[0], a['cat'], a['name'], fails), desc)
+    ctx.evaluations += len(mcases)
     ctx.extra['policy_peer_audits'] = {'configurations': len(cases), 'distinct_algorithms_seen': len(keys)}
     ctx.evaluations += len(cases)
 
